@@ -81,7 +81,8 @@ const (
 	c09Modes
 	c09Bulk
 	c09HugeK
-	c09Fill // c09_fill.go
+	c09Fill   // c09_fill.go
+	c09BigKey // c09_bigkey.go
 )
 
 // c09MaxPeerRecord is the per-record bound stated by the property ("every peer
@@ -130,6 +131,10 @@ type c09World struct {
 	epoch       int
 	lastHandler network.StreamHandler
 	emReach     event.Emitter
+
+	// c09_bigkey.go
+	bigPut     []byte      // key of the last big PUT_VALUE a remote of this run wrote
+	bigPrefill *pb.Message // server-big-key: the first request of the value prefill
 
 	putOK     map[string]bool
 	slept     bool
@@ -451,6 +456,10 @@ func (w *c09World) setup() {
 		w.variant, modeName, w.K, len(w.rt), nSenders, nExtras, w.filter, w.fab.ParkWrites, maxAge, provValidity, w.nBig)
 	s.Tracef("setup K=%d rt=%d senders=%d mode=%s", w.K, len(w.rt), nSenders, modeName)
 
+	if w.variant == c09BigKey {
+		w.setupBigKey()
+	}
+
 	// ---- value store history: records put over the wire, some left to expire ----
 	if hd := w.h.Handler(w.proto); hd != nil && w.serverMode && s.Chance("prefill-values", 2, 3) {
 		st := w.open(w.prefiller(), hd, true)
@@ -458,8 +467,13 @@ func (w *c09World) setup() {
 		n := 1 + s.Draw("prefill-nvalues", len(w.valKeys))
 		for i := 0; i < n; i++ {
 			key := w.valKeys[i]
-			m := pb.NewMessage(pb.Message_PUT_VALUE, key, 0)
-			m.Record = &recpb.Record{Key: key, Value: rankValue(1+s.Draw("rank", 3), time.Time{}, string(key))}
+			var m *pb.Message
+			if i == 0 && w.bigPrefill != nil {
+				m = w.bigPrefill
+			} else {
+				m = pb.NewMessage(pb.Message_PUT_VALUE, key, 0)
+				m.Record = &recpb.Record{Key: key, Value: rankValue(1+s.Draw("rank", 3), time.Time{}, string(key))}
+			}
 			st.nItems++
 			st.sentN++
 			st.write(encodeFrame(m))
@@ -568,7 +582,7 @@ func (st *c09Stream) write(data []byte) {
 
 func (w *c09World) loop() {
 	s := w.s
-	bulk := w.heavy()
+	bulk := w.fewStreams()
 	maxStreams := 2 + s.Draw("max-streams", 5)
 	if bulk {
 		maxStreams = 1 + s.Draw("max-streams", 2)
@@ -747,7 +761,7 @@ func (w *c09World) allDone() bool {
 			return false
 		}
 	}
-	return len(w.streams) >= 2 || w.heavy()
+	return len(w.streams) >= 2 || w.fewStreams()
 }
 
 // heavy: the variants whose responses are megabytes long (fewer streams and
@@ -755,6 +769,10 @@ func (w *c09World) allDone() bool {
 func (w *c09World) heavy() bool {
 	return w.variant == c09Bulk || w.variant == c09HugeK || w.variant == c09Fill
 }
+
+// fewStreams: the variants whose requests or responses are megabytes long run
+// one or two streams with one to three items each.
+func (w *c09World) fewStreams() bool { return w.heavy() || w.variant == c09BigKey }
 
 func (w *c09World) sleep(d time.Duration) {
 	s := w.s
@@ -861,6 +879,12 @@ func (w *c09World) drainAndProbe() {
 	w.observe()
 	if s.Failed() {
 		return
+	}
+	if w.variant == c09BigKey {
+		w.closingBigRequest() // c09_bigkey.go
+		if s.Failed() {
+			return
+		}
 	}
 	w.finalChecks()
 	if s.Failed() || s.Steps > s.MaxSteps {
